@@ -253,10 +253,13 @@ def unload(mod):
 # values and ops
 # ---------------------------------------------------------------------------
 
-def gen_value_src(fam, i, rng, depth=0, targ=None) -> str:
-    """python expression constructing an instance of class i"""
+def gen_value(fam, i, rng, depth=0, targ=None):
+    """(python expression constructing an instance of class i, tree) where tree = [[k, subtree]...] lists the
+    nested dataclass instances: k = index of the position among the dataclass-valued fields of class i"""
     c = fam["classes"][i]
     args = []
+    tree = []
+    k = -1
     for fname, t in all_fields(fam, i):
         if t[0] == "int":
             v = str(rng.randint(-5, 50))
@@ -269,20 +272,28 @@ def gen_value_src(fam, i, rng, depth=0, targ=None) -> str:
         elif t[0] == "T":
             v = {"int": str(rng.randint(0, 99)), "str": repr(rng.choice(["p", "q", "12"])), None: "5"}[targ]
         else:
+            k += 1
             _, j, wrap, ta = t
             deep = depth >= 3
             if wrap == "plain":
-                v = gen_value_src(fam, j, rng, depth + 1, ta)
+                subs = [gen_value(fam, j, rng, depth + 1, ta)]
+                v = subs[0][0]
             elif wrap == "opt":
-                v = "None" if (deep or rng.random() < 0.35) else gen_value_src(fam, j, rng, depth + 1, ta)
+                subs = [] if (deep or rng.random() < 0.35) else [gen_value(fam, j, rng, depth + 1, ta)]
+                v = subs[0][0] if subs else "None"
             elif wrap == "list":
-                k = 0 if deep else rng.randint(0, 2)
-                v = "[" + ", ".join(gen_value_src(fam, j, rng, depth + 1, ta) for _ in range(k)) + "]"
+                subs = [gen_value(fam, j, rng, depth + 1, ta) for _ in range(0 if deep else rng.randint(0, 2))]
+                v = "[" + ", ".join(x[0] for x in subs) + "]"
             else:
-                k = 0 if deep else rng.randint(0, 2)
-                v = "{" + ", ".join(f"'k{q}': " + gen_value_src(fam, j, rng, depth + 1, ta) for q in range(k)) + "}"
+                subs = [gen_value(fam, j, rng, depth + 1, ta) for _ in range(0 if deep else rng.randint(0, 2))]
+                v = "{" + ", ".join(f"'k{q}': " + x[0] for q, x in enumerate(subs)) + "}"
+            tree.extend([k, x[1]] for x in subs)
         args.append(f"{fname}={v}")
-    return f"{c['name']}({', '.join(args)})"
+    return f"{c['name']}({', '.join(args)})", tree
+
+
+def gen_value_src(fam, i, rng, depth=0, targ=None) -> str:
+    return gen_value(fam, i, rng, depth, targ)[0]
 
 
 def has_plain_cycle(fam, i, seen=()) -> bool:
@@ -403,6 +414,6 @@ def snapshot(mod, fam) -> dict:
             if name.startswith("__mashumaro_") and name.endswith("__") and "builder_params" not in name:
                 m[name[12:-2]] = meth_kind(v)
             elif name.startswith("__dialect_") and name.endswith("_cache__"):
-                ca[name[10:-9]] = sorted(d.__name__ for d in v)
+                ca[name[10:-8]] = sorted(d.__name__ for d in v)
         out[c["name"]] = {"m": m, "c": ca}
     return out
